@@ -46,6 +46,15 @@ func sanitizeLangSys(langSys *tables.LangSys, featuresCount int) {
 		// invalid index : replace it by the sentinel value
 		langSys.RequiredFeatureIndex = 0xFFFF
 	}
+	// drop the invalid indices, so that [FeatureIndices] may be
+	// safely used to index the feature list
+	valid := langSys.FeatureIndices[:0]
+	for _, index := range langSys.FeatureIndices {
+		if int(index) < featuresCount {
+			valid = append(valid, index)
+		}
+	}
+	langSys.FeatureIndices = valid
 }
 
 type Script struct {
